@@ -76,6 +76,10 @@ def gen_cases(rng: random.Random, tier: str):
         picks = ws if big else [rng.choice(ws)]
         for f in dict.fromkeys(picks):
             cases.append(mk(t, f, 'start-fail', n=4, cap=8))
+    # (a') the failing initialisation is the library's own CPU pinning (an invalid CPU id), not the subclass's __init__
+    cases.append(mk(['P', 2], ['cpu', 0, rng.choice([0, 1])], 'start-fail', n=4, cap=8))
+    if big:
+        cases.append(mk(['S', ['P', 1], ['P', 2]], ['cpu', 2, 1], 'start-fail', n=4, cap=8))
     # (b) abandoned stream whose pending inputs exceed the pipe buffer (F12 class), one worker per servlet
     for t in ([['P', 1], ['S', ['P', 1], ['T', 1]]] + ([['S', ['P', 1], ['P', 1]], ['S', ['T', 1], ['P', 1]]] if big else [])):
         cases.append(mk(t, None, 'abandon-gt-pipe', n=rng.choice([300, 500] if not big else [200, 500, 1000]),
@@ -206,7 +210,11 @@ def run_case(case):
         if out.get('hang') == 'enter-fail':
             mon.append(dict(prop='C11', rule='enter-hang', klass='start-fail', detail=f'failing __enter__ did not return in {pc["hang_s"]}s: {out["diag"]}'))
         else:
-            if out.get('start_err') != want:
+            if case['fail'][0] == 'cpu':
+                if not (str(out.get('start_err')).startswith('other:') and 'OSError' in str(out.get('start_err'))):
+                    mon.append(dict(prop='C11', rule='start-error', klass='start-fail',
+                                    detail=f'__enter__ raised {out.get("start_err")}; a worker is pinned to a CPU that does not exist (OSError expected)'))
+            elif out.get('start_err') != want:
                 mon.append(dict(prop='C11', rule='start-error', klass='start-fail', detail=f'__enter__ raised {out.get("start_err")}, the failing worker is {want}'))
             left = out.get('start_left') or {}
             if left.get('threads') or left.get('children'):
